@@ -43,8 +43,9 @@ latest assignment in program order.
 
 A program ("case") is JSON:  dict(cpu=..., macros=[dict(name, glob, body=[item..])], prog=[item..]).
 Items (dict, key "k"):
-  def   n how(equ|=|equ2|set|:=|lab|lab:|label) [v] [of] label kinds take the program counter; of=dict(n,q):
-                                                           the value is the symbol `of` plus v
+  def   n how(equ|=|equ2|set|:=|lab|lab:|label) [v] [of] [str] label kinds take the program counter; of=dict(n,q):
+                                                           the value is the symbol `of` plus v; str: the symbol is
+                                                           the string "v" (references then read it as val(name))
   rept  c body [glob] REPT c[,{GLOBALSYMBOLS}] ... ENDM (labels in the body are local to each repetition unless glob)
   irp   p a body     IRP p,a1,a2.. ... ENDM; references in the body whose name is p stand for the arguments
   proc  n items      the manual's macro pair: proc n = SECTION n / PUBLIC n:PARENT / n LABEL $ ; endp n = ENDSECTION n
@@ -53,8 +54,8 @@ Items (dict, key "k"):
   ref   n q [x]      q: None | "" ([]) | "=Name" | "P" | "P0".."P9"     -> one data word; x=(style, n): the
                      reference stands in a small expression (sym+n, n+sym, sym-n, (sym)+n, sym + n); also tref, cref
   sect  n end items  SECTION n ... ENDSECTION [n]
-  pub   n q g        PUBLIC / GLOBAL n[:q]      q: None | "=Name" | "P".."P9"
-  fwd   n            FORWARD n
+  pub   n q g [more] PUBLIC / GLOBAL n[:q]      q: None | "=Name" | "P".."P9"; more = [[n, q], ..] further arguments
+  fwd   n [more]     FORWARD n; more = [[n, None], ..]
   call  m            macro call
   tdef/tref n        $$n label / reference
   ndef c / nref c d  nameless temporary label (+ - /) / reference ('+' or '-' repeated d times)
@@ -88,11 +89,12 @@ class Ev:
 
 
 class Entity:
-    __slots__ = ("kind", "value", "ev", "sect", "name", "via", "label", "thunk")
+    __slots__ = ("kind", "value", "ev", "sect", "name", "via", "label", "thunk", "str")
 
-    def __init__(self, kind, value, ev, sect, name, via=None, label=False, thunk=None):
+    def __init__(self, kind, value, ev, sect, name, via=None, label=False, thunk=None, str_=False):
         self.kind, self.value, self.ev, self.sect, self.name, self.via, self.label = kind, value, ev, sect, name, via, label
         self.thunk = thunk       # (event, item) of a constant defined by an expression `symbol+delta`
+        self.str = str_          # the value is the string of its decimal digits (read through VAL())
 
 
 def qual_text(q, lower=False):
@@ -295,6 +297,8 @@ class Prog:
                 return "%s\tlabel\t%s" % (n, cpu["pc"])
             if it.get("of"):
                 val = "%s%s+%d" % (it["of"]["n"], qual_text(it["of"].get("q")), it["v"])
+            elif it.get("str"):
+                val = '"%d"' % it["v"]
             else:
                 val = "%d" % it["v"]
             if how == "equ2":
@@ -304,7 +308,8 @@ class Prog:
             if off:
                 arg = "0"
             elif k == "ref":
-                arg = wrap_expr(it["n"] + qual_text(it.get("q"), it.get("pl")), it)
+                sym = it["n"] + qual_text(it.get("q"), it.get("pl"))
+                arg = wrap_expr("val(%s)" % sym if it.get("str") else sym, it)
             elif k == "tref":
                 arg = wrap_expr("$$" + it["n"], it)
             elif k == "cref":
@@ -317,11 +322,11 @@ class Prog:
         if k == "pub":
             if off:
                 return "; off"
-            q = it.get("q")
-            return "\t%s\t%s%s" % ("global" if it.get("g") else "public", it["n"],
-                                   "" if q is None else ":" + (q[1:] if q[0] == "=" else q_parent_text(q)))
+            args = [(it["n"], it.get("q"))] + [tuple(x) for x in it.get("more", [])]
+            return "\t%s\t%s" % ("global" if it.get("g") else "public", ",".join(
+                n + ("" if q is None else ":" + (q[1:] if q[0] == "=" else q_parent_text(q))) for n, q in args))
         if k == "fwd":
-            return "\tforward\t%s" % it["n"] if not off else "; off"
+            return "\tforward\t%s" % ",".join([it["n"]] + [x[0] for x in it.get("more", [])]) if not off else "; off"
         if k == "call":
             return "\t%s" % it["m"]
         if k == "tdef":
@@ -414,13 +419,15 @@ def evaluate(prog, U, off=frozenset()):
             state["amb_area"] = True
             state["amb_dot"] = True
 
-    def enter(key, kind, value, ev, name, via=None, label=False, also=(), thunk=None):
+    def enter(key, kind, value, ev, name, via=None, label=False, also=(), thunk=None, str_=False):
         """apply [MUT]; returns Entity or None (fault recorded)"""
         old = table.get(key)
         if old is None:
-            e = Entity(kind, value, ev, key[1], name, via, label, thunk)
+            e = Entity(kind, value, ev, key[1], name, via, label, thunk, str_)
             table[key] = e
             return e
+        if old.str != str_:
+            raise Discard("one name for string and integer symbols")
         if kind == "const":
             res.fault("def", ev, "constant %s defined twice" % name if old.kind == "const"
                       else "variable %s redefined as constant" % name, also=also)
@@ -456,6 +463,9 @@ def evaluate(prog, U, off=frozenset()):
             kind = "var" if how in VAR_HOW else "const"
             value = ev.addr if how in LABEL_HOW else it["v"]
             thunk = None
+            is_str = bool(it.get("str"))
+            if is_str and (how in LABEL_HOW or it.get("of") or ev.exp is not None):
+                raise Discard("string symbol as label / expression / in a macro body")
             if it.get("of"):
                 if how in LABEL_HOW:
                     raise Discard("label with an expression")
@@ -497,40 +507,44 @@ def evaluate(prog, U, off=frozenset()):
             if via == "public" and kind != "const":
                 raise Discard("PUBLIC of a variable")
             e = enter((N, target), kind, value, ev, name, via, how in LABEL_HOW, also,
-                      thunk if kind == "const" else None)
+                      thunk if kind == "const" else None, is_str)
             if ev.exp is not None and res.faults["def"].get(ev.iid):
                 raise Discard("rejected definition inside a macro body")
             nontemp_defined(name, e is not None)
             if e is not None and extra is not None:
                 table[(F(extra[0]), extra[1])] = Entity("const", value, ev, extra[1], extra[0], "global",
-                                                        how in LABEL_HOW, thunk)
+                                                        how in LABEL_HOW, thunk, is_str)
             continue
         if k in ("pub", "fwd"):
             if cur is None:
                 raise Discard("PUBLIC/GLOBAL/FORWARD outside of a section")
             L = lists[cur]
-            N = F(it["n"])
-            if k == "fwd":
-                if N in L["pub"] or N in L["glob"]:
-                    res.fault("def", ev, "FORWARD of the exported symbol %s" % it["n"])      # [FWD]
-                elif N in L["fwd"]:
-                    raise Discard("FORWARD repeated")
-                else:
-                    L["fwd"][N] = ev
-                continue
-            mine, other = ("glob", "pub") if it.get("g") else ("pub", "glob")
-            if N in L["fwd"]:
-                res.fault("def", ev, "%s of the FORWARD symbol %s" % ("GLOBAL" if it.get("g") else "PUBLIC", it["n"]))
-                continue
-            if N in L[other] or N in L[mine]:
-                raise Discard("symbol exported twice")
-            q = it.get("q")
-            r = identify(ev.path, "" if q is None else q, ev)
-            if r[0] == "bad":
-                raise Discard("PUBLIC/GLOBAL to a section outside the parent path")
-            if r[1] == cur:
-                raise Discard("PUBLIC/GLOBAL to the current section")
-            L[mine][N] = (r[1], ev)
+            # "It is possible to treat multiple symbols with one statement": more = further names (with sections)
+            for name, q in [(it["n"], it.get("q"))] + [tuple(x) for x in it.get("more", [])]:
+                N = F(name)
+                if k == "fwd":
+                    if N in L["pub"] or N in L["glob"]:
+                        res.fault("def", ev, "FORWARD of the exported symbol %s" % name)      # [FWD]
+                    elif N in L["fwd"]:
+                        raise Discard("FORWARD repeated")
+                    else:
+                        L["fwd"][N] = ev
+                    continue
+                mine, other = ("glob", "pub") if it.get("g") else ("pub", "glob")
+                if N in L["fwd"]:
+                    res.fault("def", ev, "%s of the FORWARD symbol %s" % ("GLOBAL" if it.get("g") else "PUBLIC", name))
+                    continue
+                if N in L[other] or N in L[mine]:
+                    raise Discard("symbol exported twice")
+                r = identify(ev.path, "" if q is None else q, ev)
+                if r[0] == "bad":
+                    raise Discard("PUBLIC/GLOBAL to a section outside the parent path")
+                if r[1] == cur:
+                    raise Discard("PUBLIC/GLOBAL to the current section")
+                L[mine][N] = (r[1], ev)
+            continue
+        if k == "ref" and it.get("str"):
+            fwd_at[ev.i] = (cur is not None and it.get("q") is None and F(it["n"]) in lists[cur]["fwd"])
             continue
         if k == "tdef":
             if state["amb_area"]:
@@ -559,6 +573,7 @@ def evaluate(prog, U, off=frozenset()):
     # ------------------------------------------------------------ pass B: references in program order
     cur_val = {}      # id(Entity) -> current value of a variable
     stacks = {}
+    tags_stack = set()
 
     def lookup(ev, name, q, use_loc=True, before=None):
         """-> (status, Entity|None, tags); before: only symbols whose (first) definition precedes that event"""
@@ -602,7 +617,7 @@ def evaluate(prog, U, off=frozenset()):
         tev, tit = e.thunk
         computing.add(id(e))
         st, t, _ = lookup(tev, tit["of"]["n"], tit["of"].get("q"))
-        if st != "ok":
+        if st != "ok" or t.str:
             raise Discard("constant defined by an unresolvable symbol is needed")
         if t.kind == "var":
             if at is None or at.i != tev.i or id(t) not in cur_val:
@@ -641,7 +656,7 @@ def evaluate(prog, U, off=frozenset()):
                 # the final pass finds must have a value at this point
                 st1, _, _ = lookup(ev, of["n"], "P0" if fwd_at.get(ev.i) else of.get("q"), before=ev.i)
                 st, t, _ = lookup(ev, of["n"], of.get("q"))
-                if st1 != "ok" or st != "ok" or (t.kind == "var" and id(t) not in cur_val):
+                if st1 != "ok" or st != "ok" or t.str or (t.kind == "var" and id(t) not in cur_val):
                     res.disable.add(ev.iid)
                     continue
             if faulty:
@@ -668,13 +683,17 @@ def evaluate(prog, U, off=frozenset()):
                     v = value_of(e, ev)
                     if v is None or (e.kind == "const" and e.ev.i > ev.i):
                         raise Discard("PUSHV of a symbol that does not exist yet")
-                    stacks.setdefault(S, []).append(v)                 # [PV]
+                    stacks.setdefault(S, []).append((v, e.str))        # [PV]
                 else:
                     if e.kind != "var" or id(e) not in cur_val:
                         raise Discard("POPV into a constant or a variable that does not exist yet")
                     if not stacks.get(S):
                         raise Discard("POPV from an empty stack")
-                    cur_val[id(e)] = stacks[S].pop()
+                    v, vs = stacks[S].pop()
+                    if vs != e.str:
+                        raise Discard("POPV changes the type of a variable")
+                    cur_val[id(e)] = v
+                    tags_stack.add("string" if vs else "integer")
                     if not stacks[S]:
                         del stacks[S]
             continue
@@ -724,6 +743,16 @@ def evaluate(prog, U, off=frozenset()):
                 st = "ok"
                 tags = ["form:nameless" + it["c"], "dist%d" % d, "slash" if e.name == "/" else "sign",
                         "across-section" if e.sect != (ev.path[-1] if ev.path else None) else "same-section"]
+        if st == "ok" and e.str != bool(it.get("str")):
+            raise Discard("string symbol read without VAL() or integer symbol read with it")
+        if k == "ref" and it.get("str") and st == "ok":
+            # VAL() needs a string in every pass: an unknown symbol of pass 1 is replaced by the program counter
+            # (an integer).  Only read string symbols that pass 1 already finds as strings.
+            st1, e1, _ = lookup(ev, it["n"], "P0" if fwd_at.get(ev.i) else it.get("q"), before=ev.i)
+            if st1 != "ok" or not e1.str:
+                st = "skip"
+        elif k == "ref" and it.get("str") and st in ("undef", "qual"):
+            st = "skip"          # VAL(unknown symbol) ends pass 1 with a fatal 'internal error': not a C13 matter
         if st == "ok":
             v = value_of(e, ev)
             if v is None:
@@ -736,6 +765,8 @@ def evaluate(prog, U, off=frozenset()):
                 if it.get("ins"):
                     tags.append("instruction-operand")
                 tags.append(e.kind)
+                if e.str:
+                    tags.append("string")
                 if e.thunk is not None:
                     tags.append("by-expression")
                 if ev.body == "rept":
@@ -765,6 +796,7 @@ def evaluate(prog, U, off=frozenset()):
         s.text = prog.text(it, False).strip()
     if stacks:
         raise Discard("unbalanced PUSHV/POPV")
+    res.tags = {"popv-" + t for t in tags_stack}
     return res
 
 
